@@ -722,7 +722,7 @@ Qed.
 
 Lemma replay_loop_okstate c rows : forall a b, keeps okstate (replay_loop c rows a b).
 Proof.
-  induction rows as [|r rows IH]; intros a b; cbn [replay_loop]; [keeps_tac|].
+  induction rows as [|r rows IH]; intros a b; cbn [replay_loop]; cbv zeta; [keeps_tac|].
   keeps_step; [keeps_tac|]. keeps_step; [keeps_tac|]. destruct (_ || _); [apply IH|].
   keeps_step; [kst|]. keeps_step; [keeps_tac|]. keeps_step; [keeps_tac|]. keeps_step; [keeps_tac|].
   keeps_step; [keeps_tac|]. keeps_step; [kst|apply IH].
